@@ -27,6 +27,7 @@ type Ref struct {
 	ID     int
 	Target int    // task index
 	X      string // value of the semantic variable X passed by this reference ("" = not passed)
+	BadRQ  bool   // pass a value that fails the target's requires/enum guard (targets with run: always only)
 }
 
 type EntryKind int
@@ -137,7 +138,7 @@ func (p *Prog) RootVars(r *Ref) map[string]string {
 			vars["X"] = r.X
 		}
 	}
-	if rq := t.RQ(); rq != "" {
+	if rq := t.RQFor(r); rq != "" {
 		vars["RQ"] = rq
 	}
 	return vars
@@ -182,7 +183,7 @@ func (p *Prog) refVars(from *Task, r *Ref, item string) string {
 			kv = append(kv, "X: "+yq(x))
 		}
 	}
-	if rq := t.RQ(); rq != "" {
+	if rq := t.RQFor(r); rq != "" {
 		kv = append(kv, "RQ: "+yq(rq))
 	}
 	if len(kv) == 0 {
@@ -208,6 +209,21 @@ func (t *Task) RQ() string {
 		}
 	}
 	return ""
+}
+
+// RQFor is RQ for one reference (a reference may pass a failing value on purpose).
+func (t *Task) RQFor(r *Ref) string {
+	if r.BadRQ && t.Run == Always {
+		for _, g := range t.Guards {
+			switch g.Kind {
+			case "requires":
+				return ""
+			case "enum":
+				return "bad"
+			}
+		}
+	}
+	return t.RQ()
 }
 
 // GuardFails returns the kind of the first failing guard in evaluation order, or "".
